@@ -466,6 +466,8 @@ class World(BaseWorld):
         from discopy import monoidal
         if f != "dagger" and not isinstance(a, monoidal.Diagram):
             return "skipped"
+        if f == "flatten" and len(a) > 9:
+            return "skipped-size"
         if f in ("normal_form", "foliation", "foliation_flatten", "normalize_all", "foliate_all",
                  "depth_width") and len(a) > 9:
             return "skipped-size"       # rewriting is cubic and worse in the number of boxes
@@ -481,6 +483,10 @@ class World(BaseWorld):
             if family == "biclosed" and not self.cfg["flatten_biclosed"]:
                 return "skipped"
             thunk = lambda: a.foliation().flatten()
+        elif f == "flatten":
+            if family == "biclosed" and not self.cfg["flatten_biclosed"]:
+                return "skipped"
+            thunk = lambda: a.flatten()       # of a foliation (possibly tensored / composed further) or of a plain diagram
         elif f == "iter":
             thunk = lambda: list(a)
         elif f == "normalize_all":
@@ -1019,7 +1025,7 @@ class Driver:
             return {"op": "sum", "a": a, "b": b, "c": sched.choice(names),
                     "how": sched.choice(["then", "tensor", "dagger"])}
         if r < 0.45:
-            f = sched.choice(["dagger", "dagger_method", "iter", "layers_slices", "bubble", "downgrade",
+            f = sched.choice(["dagger", "dagger_method", "iter", "layers_slices", "bubble", "downgrade", "flatten",
                               "depth_width", "foliation", "foliation_flatten", "foliate_all", "normalize_all",
                               "normal_form", "transpose_l", "transpose_r", "subs_any", "lambdify_any"] + (
                                   ["circuit2zx", "init_and_discard", "tk_roundtrip", "grad", "subs"] * 2
